@@ -331,7 +331,7 @@ def pureOp (f : List String) : String :=
      | some memo =>
        (match parsePayload .bpsLast memo with
         | .ok p => "ok:" ++ canonPayload p
-        | .err t => if t.startsWith "parse:" then "err:p" else "err:v"
+        | .err t => (if t.startsWith "parse:" then "err:p" else "err:v") ++ " #" ++ t
         | .panic _ => "panic")
      | none => "bad-op")
   | ["parse2", m] =>
@@ -340,7 +340,7 @@ def pureOp (f : List String) : String :=
      | some memo =>
        (match parsePayload .amountLast memo with
         | .ok p => "ok:" ++ canonPayload p
-        | .err t => if t.startsWith "parse:" then "err:p" else "err:v"
+        | .err t => (if t.startsWith "parse:" then "err:p" else "err:v") ++ " #" ++ t
         | .panic _ => "panic")
      | none => "bad-op")
   | ["bech32", s] => (match unhxS s with | some s => (match accAddressFromBech32 hrp s with | some b => "ok:" ++ hxB b | none => "err") | none => "bad-op")
